@@ -80,11 +80,12 @@ Definition files_tag (files : list (string * string)) : Z :=
 Definition inj_case (id : Z) (go : Z) (vs_neutral vs_original : option (list (string * string))) : list Z :=
   let t o := match o with Some l => files_tag l | None => 2 end in
   let tag := match vs_neutral with
-             | Some _ => Z.min (t vs_neutral) (t vs_original)
+             | Some _ => let tn := t vs_neutral in
+                         if Z.eqb tn 0 then 0 else Z.min tn (t vs_original)   (* lazily: most cases are 0 already *)
              | None => t vs_original
              end in
-  let nontrivial := match vs_original with
-                    | Some l => existsb (fun p => negb (str_eqb (fst p) (snd p))) l
-                    | None => true
+  let nontrivial := match vs_neutral, vs_original with
+                    | Some l, _ | None, Some l => existsb (fun p => negb (str_eqb (fst p) (snd p))) l
+                    | None, None => true
                     end in
   [id; (if Z.eqb go tag then 1 else 0); (if Z.eqb tag 2 then 0 else 1); (if nontrivial then 1 else 0); tag].
